@@ -211,7 +211,7 @@ int main(int argc, char **argv) {
         for (char *p = strtok(line, " \t\n"); p && nt < 8; p = strtok(NULL, " \t\n")) tok[nt++] = p;
         if (nt == 0 || tok[0][0] == '#') continue;
         if (!strcmp(tok[0], "reporter")) strcpy(reporter_kind, tok[1]);
-        else if (!strcmp(tok[0], "run")) { if (!strcmp(tok[1], "single")) { run_single = 1; strcpy(single, tok[2]); } else if (!strcmp(tok[1], "twice")) run_twice = 1; }
+        else if (!strcmp(tok[0], "run")) { if (!strcmp(tok[1], "single")) { run_single = 1; strcpy(single, tok[2]); } else if (!strcmp(tok[1], "twice")) run_twice = 1; else if (!strcmp(tok[1], "inproc-forked")) run_twice = 2; }
         else if (!strcmp(tok[0], "log")) logfd = open(tok[1], O_WRONLY | O_CREAT | O_APPEND, 0644);
         else if (!strcmp(tok[0], "kill")) { strcpy(kill_test, tok[1]); strcpy(kill_point, tok[2]); kill_nth = atoi(tok[3]); strcpy(kill_how, tok[4]); }
         else if (!strcmp(tok[0], "S")) {
@@ -263,8 +263,10 @@ int main(int argc, char **argv) {
     if (!rep) { fprintf(stderr, "scn_driver: no reporter\n"); return 98; }
     orig_finish_test = rep->finish_test; rep->finish_test = probe_finish_test;
     orig_finish_suite = rep->finish_suite; rep->finish_suite = probe_finish_suite;
+    if (run_twice == 2) setenv("CGREEN_NO_FORK", "1", 1);     /* first run in the runner's own process */
     int status = run_single ? run_single_test(suites[0].suite, single, rep) : run_test_suite(suites[0].suite, rep);
     logev("verdict", status == 0 ? "0" : "1");
+    if (run_twice == 2) unsetenv("CGREEN_NO_FORK");
     if (run_twice) {            /* the same reporter object serves a second run */
         status = run_test_suite(suites[0].suite, rep);
         logev("verdict", status == 0 ? "0" : "1");
